@@ -12,6 +12,9 @@ bad = []
 for sid in ids:
     d = os.path.join(VERIF, "seeded", sid)
     m = json.load(open(os.path.join(d, "meta.json")))
+    if m.get("out_of_scope"):
+        print("SEED %-40s skipped: out of scope (%s)" % (sid, m["out_of_scope"][:80]), flush=True)
+        continue
     pids = m.get("caught_by") or [m["property"]]
     t = time.time()
     try:
